@@ -28,7 +28,12 @@ RULE = ("State = configuration + history from the shared drivers (Bloom, on-disk
         "keys, the full observable state being compared before/after each; then, where clear() exists (Bloom, on-disk, counting Bloom, "
         "count-min family), clear() and a comparison with a fresh object followed by 0-5 common follow-up operations. Property setters "
         "(query_type, elements_added, auto_expand, ...) are mutators and not in the read-only set. Non-trivial = non-empty state and >= 3 "
-        "distinct read-only calls including one absent-key query. Distinct by (structure, resolved history, reads).")
+        "distinct read-only calls including one absent-key query. Distinct by (structure, resolved history, reads). Also: look-ups that "
+        "FAIL (a key no strategy digests) with the state compared around them; the element counter assigned 0 before clear() or a value at / "
+        "above the 64-bit limit before the exports; for the count-min family a BLIND TWIN (two sketches get the same updates, one is queried "
+        "in every way after each update, the other never: both must end up observably equal - nine runs per case, eight with unit amounts "
+        "and re-labelled keys); a deterministic slice of LARGE structures (cell arrays beyond 64 Ki entries / 1 MiB) and of quotient-filter "
+        "layouts with long runs.")
 ASSUMPTIONS = ["set-operation results whose cells are all set cannot be exported (open finding KF_SATURATED_SETOP, C05) and are skipped here",
                "mean-min queries on width-1 sketches divide by zero and are outside the domain"]
 MANIFEST = {
